@@ -288,23 +288,21 @@ def round_(number, num_digits=0):
     # Excel reference: https://support.microsoft.com/en-us/office/
     #   ROUND-function-c018c5d8-40fb-4053-90b1-b3e7f61a213c
 
-    num_digits = int(num_digits)
-    if num_digits >= 0:  # round to the right side of the point
-        return float(Decimal(repr(float(number))).quantize(
-            Decimal(repr(pow(10, -num_digits))),
-            rounding=ROUND_HALF_UP
-        ))
-        # see https://docs.python.org/2/library/functions.html#round
-        # and https://gist.github.com/ejamesc/cedc886c5f36e2d075c5
-
-    else:  # builtin round() is half to even, Excel is half away from zero
-        return _round(number, num_digits, rounding=ROUND_HALF_UP)
+    # builtin round() is half to even, Excel is half away from zero
+    # see https://docs.python.org/2/library/functions.html#round
+    # and https://gist.github.com/ejamesc/cedc886c5f36e2d075c5
+    return _round(number, num_digits, rounding=ROUND_HALF_UP)
 
 
 def _round(number, num_digits, rounding):
     num_digits = int(num_digits)
+    number = Decimal(repr(float(number)))
+    if number.as_tuple().exponent >= -num_digits:
+        # already a multiple of 10^-num_digits; quantize() of a large number
+        # would need more digits than the decimal context holds
+        return float(number)
     quant = Decimal(f'1E{"+-"[num_digits >= 0]}{abs(num_digits)}')
-    return float(Decimal(repr(float(number))).quantize(quant, rounding=rounding))
+    return float(number.quantize(quant, rounding=rounding))
 
 
 @excel_math_func
